@@ -404,10 +404,13 @@ def e2e_job(job):
 
     (nx, ny, scale, rot, parity, center, depth, planetary) = job[:8]
     via_builder = len(job) > 8 and job[8]
+    fmt = job[9] if len(job) > 9 else "npy"
     part = Part()
     cfg = {"image": (nx, ny), "scale_deg": scale, "rotation": rot, "parity": parity, "center": center, "depth": depth, "coordsys": "planetary" if planetary else "astronomical"}
     if via_builder:
         cfg["entry"] = "Builder.toast_base"
+    if fmt != "npy":
+        cfg["format"] = fmt
     part.case(nontrivial=True)
 
     def bad(clause, detail):
@@ -417,8 +420,8 @@ def e2e_job(job):
     data = (np.arange(nx * ny, dtype=np.float32).reshape(ny, nx) % 97) + 1
     ws = WcsSampler(data, wcs)
     with scratch("c07e") as d:
-        pf = PyramidIO(os.path.join(d, "f"), default_format="npy")
-        pu = PyramidIO(os.path.join(d, "u"), default_format="npy")
+        pf = PyramidIO(os.path.join(d, "f"), default_format=fmt)
+        pu = PyramidIO(os.path.join(d, "u"), default_format=fmt)
         try:
             with quiet():
                 if via_builder:
@@ -525,6 +528,10 @@ def run(tier, seed):
         jobs.append(("e2e", c))
     for c in [(15, 15, 0.6, 0.0, 1, (40.0, -20.0), 3, True), (40, 30, 0.5, 30.0, 1, (0.0, 10.0), 3, False), (16, 16, 0.6, 45.0, -1, (180.0, 85.0), 3, True)]:
         jobs.append(("e2e", c + (True,)))
+    # bottom-up tile format: the filtered (updating) and unfiltered (clobbering) routes reverse rows separately
+    for c in [(40, 30, 0.5, 30.0, 1, (0.0, 10.0), 3, False), (15, 15, 0.6, 0.0, 1, (40.0, -20.0), 3, True)]:
+        jobs.append(("e2e", c + (False, "fits")))
+        jobs.append(("e2e", c + (True, "fits")))
     par.pmap(_job, jobs, rep)
     return rep.finish()
 
@@ -536,7 +543,7 @@ def replay(payload):
     elif "grid" in r:
         p = chunk_job((r["map"][0], r["map"][1], r["grid"][0], r["grid"][1], r["depth"]))
     elif "depth" in r:
-        p = e2e_job((r["image"][0], r["image"][1], r["scale_deg"], r["rotation"], r["parity"], tuple(r["center"]), r["depth"], r["coordsys"] == "planetary", r.get("entry") == "Builder.toast_base"))
+        p = e2e_job((r["image"][0], r["image"][1], r["scale_deg"], r["rotation"], r["parity"], tuple(r["center"]), r["depth"], r["coordsys"] == "planetary", r.get("entry") == "Builder.toast_base", r.get("format", "npy")))
     else:
         p = footprint_job([(r["image"][0], r["image"][1], r["scale_deg"], r["rotation"], r["parity"], tuple(r["center"]))])
     for sig, (detail, _) in p.violations.items():
